@@ -2,6 +2,9 @@ import PkgModel.Generated.PySrc
 import PkgModel.PyObj
 import PkgProofs.Lemmas.PyObj
 import PkgProofs.Lemmas.ScanTrim
+import PkgProofs.Lemmas.SrcRobust
+import PkgProofs.Lemmas.SrcLoops
+import PkgProofs.Lemmas.SrcTrailing
 /-!
 # Translated source of `Version.__str__`, `.public`, `.base_version`, `.is_prerelease`, `_TrimmedRelease.release`
 = the model's `Ver.str`, `Ver.public`, `Ver.base`, `Ver.isPre`, `trimRelease`
@@ -199,30 +202,110 @@ theorem nonzeros_eq (f c : PyVal → M PyVal) (r : List Nat)
     obtain ⟨i, v, rfl⟩ := hall 0 _ t ht
     exact hc i v
 
-/-- `_TrimmedRelease.release` on a `_TrimmedRelease` object: the model's `trimRelease` of its release -/
+theorem release_lt_fuel (cls : String) (v : Ver) : v.release.length < 4 * sizeL [ofVer cls v] + 15 + 1 := by
+  have h1 : sizeL (v.release.map ofNat) = v.release.length := sizeL_ofNats v.release
+  simp only [sizeL, size, sizeF, ofVer, ofVersionTuple, ofRelease, h1]
+  omega
+
+/-- `_TrimmedRelease.release` on a `_TrimmedRelease` object: the model's `trimRelease` of its release.  Accepted spellings:
+`max(indices of the non-zero components, default=0) + 1`, and an index `while` loop walking back from the end that keeps
+at least one component (through `PyRt.while_fuel`). -/
 theorem _TrimmedRelease.release_eq_model (v : Ver) :
     Gen.PySrc._TrimmedRelease.release (ofVer "_TrimmedRelease" v) = .ok (ofRelease (trimRelease v.release)) := by
-  unfold Gen.PySrc._TrimmedRelease.release
   have hi : isinstance (ofVer "_TrimmedRelease" v) ["_TrimmedRelease"] = true := by
     simp [isinstance, className_ofVer]
-  simp only [hi, Bool.not_true, Bool.false_eq_true, if_false, Version.release_eq_model, ok_bind, ofRelease, enumerate,
-    iterate_tuple, pure_ok]
-  rw [nonzeros_eq _ _ _ (by intro i v; simp [unpack2, iterate]) (by intro i v; simp [unpack2, iterate])]
-  simp only [ok_bind, max_default_nats, add_int]
-  have h1 : ((List.foldl max 0 (nzIdx 0 v.release) : Nat) : Int) + 1 = ((List.foldl max 0 (nzIdx 0 v.release) + 1 : Nat) : Int) := by
-    omega
-  rw [h1, getslice_tuple_to, foldl_max_nzIdx _ 0 0 (Nat.le_refl 0)]
-  congr 3
-  rw [← take_lastNZ]
-  cases lastNZ v.release <;> simp
+  first
+  | (
+      unfold Gen.PySrc._TrimmedRelease.release
+      simp only [hi, Bool.not_true, Bool.false_eq_true, if_false, Version.release_eq_model, ok_bind, ofRelease, enumerate,
+        iterate_tuple, pure_ok]
+      rw [nonzeros_eq _ _ _ (by intro i v; simp [unpack2, iterate]) (by intro i v; simp [unpack2, iterate])]
+      simp only [ok_bind, max_default_nats, add_int]
+      have h1 : ((List.foldl max 0 (nzIdx 0 v.release) : Nat) : Int) + 1 = ((List.foldl max 0 (nzIdx 0 v.release) + 1 : Nat) : Int) := by
+        omega
+      rw [h1, getslice_tuple_to, foldl_max_nzIdx _ 0 0 (Nat.le_refl 0)]
+      congr 3
+      rw [← take_lastNZ]
+      cases lastNZ v.release <;> simp
+      done
+    )
+  | (
+      unfold Gen.PySrc._TrimmedRelease.release
+      rw [fuelOf_succ']
+      unfold Gen.PySrc._TrimmedRelease.release__fuel
+      simp only [hi, Bool.not_true, Bool.false_eq_true, if_false, Version.release_eq_model, ok_bind, ofRelease, len_tuple,
+        List.length_map]
+      rw [(while_fuel _ (trC v.release) tzS (tzI v.release) tzM ?hstop ?hgo ?hI ?hμ (List.range _) (.int v.release.length) ?hinit ?hlen).1]
+      case hstop =>
+        intro i s d hs hc
+        obtain ⟨k, hk, rfl⟩ := hs
+        match k, hk, hc with
+        | 0, _, _ => simp [gt, cmp, asInt, Cmp.onInt]
+        | 1, _, _ => simp [gt, cmp, asInt, Cmp.onInt]
+        | j + 2, hk, hc =>
+          obtain ⟨x, hx⟩ : ∃ x, v.release[j + 1]? = some x := ⟨v.release[j + 1], List.getElem?_eq_getElem (by omega)⟩
+          have hj : j + 1 < (v.release.map ofNat).length := by simp; omega
+          have hg : getitem (PyVal.tuple (List.map ofNat v.release)) (PyVal.int ((j : Int) + 2 - 1)) = .ok (ofNat x) := by
+            have e : (j : Int) + 2 - 1 = ((j + 1 : Nat) : Int) := by omega
+            rw [e, getitem_tuple_nat _ _ hj]; simp [List.getD_eq_getElem?_getD, hx]
+          rw [trC_succ] at hc
+          simp only [List.getD_eq_getElem?_getD, hx, Option.getD_some] at hc
+          have hx0 : ¬ x = 0 := by simpa using hc
+          have hgt : (1 : Int) < (j : Int) + 2 := by omega
+          simp [gt, cmp, asInt, Cmp.onInt, sub_int, hg, ofNat, hx0, hgt]
+      case hgo =>
+        intro i s d hs hc
+        obtain ⟨k, hk, rfl⟩ := hs
+        match k, hk, hc with
+        | 0, _, hc => exact absurd hc (by simp [trC])
+        | 1, _, hc => exact absurd hc (by simp [trC])
+        | j + 2, hk, hc =>
+          obtain ⟨x, hx⟩ : ∃ x, v.release[j + 1]? = some x := ⟨v.release[j + 1], List.getElem?_eq_getElem (by omega)⟩
+          have hj : j + 1 < (v.release.map ofNat).length := by simp; omega
+          have hg : getitem (PyVal.tuple (List.map ofNat v.release)) (PyVal.int ((j : Int) + 2 - 1)) = .ok (ofNat x) := by
+            have e : (j : Int) + 2 - 1 = ((j + 1 : Nat) : Int) := by omega
+            rw [e, getitem_tuple_nat _ _ hj]; simp [List.getD_eq_getElem?_getD, hx]
+          rw [trC_succ] at hc
+          simp only [List.getD_eq_getElem?_getD, hx, Option.getD_some] at hc
+          have hx0 : x = 0 := by simpa using hc
+          have hgt : (1 : Int) < (j : Int) + 2 := by omega
+          simp [gt, cmp, asInt, Cmp.onInt, sub_int, hg, ofNat, hx0, hgt, tzS]
+      case hI =>
+        intro s hs hc
+        obtain ⟨k, hk, rfl⟩ := hs
+        match k, hk, hc with
+        | 0, _, hc => exact absurd hc (by simp [trC])
+        | 1, _, hc => exact absurd hc (by simp [trC])
+        | j + 2, hk, _ => exact ⟨j + 1, by omega, tzS_succ (j + 1)⟩
+      case hμ =>
+        intro s hs hc
+        obtain ⟨k, hk, rfl⟩ := hs
+        match k, hk, hc with
+        | 0, _, hc => exact absurd hc (by simp [trC])
+        | 1, _, hc => exact absurd hc (by simp [trC])
+        | j + 2, _, _ => rw [tzS_succ (j + 1)]; simp [tzM]
+      case hinit => exact ⟨_, Nat.le_refl _, rfl⟩
+      case hlen =>
+        simp only [tzM, Int.toNat_natCast, List.length_range]
+        exact release_lt_fuel _ v
+      obtain ⟨j, hj1, hj2⟩ := tr_end v.release v.release.length v.release.length (Nat.le_refl _) (Nat.le_refl _)
+      simp only [tzM, Int.toNat_natCast, hj1, ok_bind, Bool.not_true, Bool.false_eq_true, if_false, getslice_tuple_to, pure_ok,
+        ← List.map_take, hj2, List.take_length]
+    )
 
 /-- the zero-argument `super()` in it refuses any other object (`TypeError`) -/
 theorem _TrimmedRelease.release_other (cls : String) (v : Ver) (h : cls ≠ "_TrimmedRelease") :
     Gen.PySrc._TrimmedRelease.release (ofVer cls v) = .error "TypeError" := by
-  unfold Gen.PySrc._TrimmedRelease.release
   have hi : isinstance (ofVer cls v) ["_TrimmedRelease"] = false := by
     simp [isinstance, className_ofVer, h]
-  simp [hi, typeError]
+  first
+  | (unfold Gen.PySrc._TrimmedRelease.release
+     simp [hi, typeError]
+     done)
+  | (unfold Gen.PySrc._TrimmedRelease.release
+     rw [fuelOf_succ']
+     unfold Gen.PySrc._TrimmedRelease.release__fuel
+     simp [hi, typeError])
 
 /-! ### `Version.__str__`, `.base_version`, `.public`, `.is_prerelease` -/
 
@@ -257,8 +340,8 @@ theorem genexp_str_pre (p : PreL × Nat) :
 theorem Version.base_version_eq_model (cls : String) (v : Ver) :
     Gen.PySrc.Version.base_version (ofVer cls v) = .ok (.str (viewOf cls v).base) := by
   unfold Gen.PySrc.Version.base_version
-  simp only [Version.epoch_eq_model, ok_bind, release_dispatch, genexp_str_release, str_join_iter,
-    eq_int, list_append_list, format_nat]
+  simp only [Version.epoch_eq_model, ok_bind, release_dispatch, map_, genexp_str_release, str_join_iter,
+    eq_int, list_append_list, format_nat, format_str, pure_ok]
   by_cases he : v.epoch = 0
   · simp [he, Ver.base, viewOf, renderRelease, str_join, joinStrs, ofString]
   · have : ((v.epoch : Int) == 0) = false := by simp; omega
@@ -269,8 +352,8 @@ theorem Version.__str___eq_model (cls : String) (v : Ver) (h : v.loc ≠ some []
     Gen.PySrc.Version.__str__ (ofVer cls v) = .ok (.str (viewOf cls v).str) := by
   unfold Gen.PySrc.Version.__str__
   simp only [Version.epoch_eq_model, Version.pre_eq_model, Version.post_eq_model, Version.dev_eq_model,
-    Version.local_eq_model cls v h, ok_bind, release_dispatch, genexp_str_release, str_join_iter,
-    eq_int, list_append_list, format_nat]
+    Version.local_eq_model cls v h, ok_bind, release_dispatch, map_, genexp_str_release, str_join_iter,
+    eq_int, list_append_list, format_nat, format_str, pure_ok]
   have hj : ∀ l : List Str, str_join (.str (ofString "")) (.list (l.map .str)) = .ok (.str l.flatten) :=
     fun l => str_join_empty_list l
   have he : ((v.epoch : Int) == 0) = (v.epoch == 0) := by
@@ -282,7 +365,7 @@ theorem Version.__str___eq_model (cls : String) (v : Ver) (h : v.loc ≠ some []
   rw [hl]
   cases hpre : v.pre <;> cases hpost : v.post <;> cases hdev : v.dev <;> cases hloc : v.localStr <;>
     by_cases h0 : v.epoch = 0 <;>
-    simp [h0, ofOptPre, ofOptNat, ofOptStr, genexp_str_pre, str_join, joinStrs, renderRelease, ofString,
+    simp [h0, ofOptPre, ofOptNat, ofOptStr, genexp_str_pre, str_join, joinStrs, renderRelease, ofString, PyRt.add,
       show ∀ p, isNone (ofPre p) = false from fun _ => rfl]
 
 theorem Version.is_prerelease_eq_model (cls : String) (v : Ver) :
@@ -313,17 +396,22 @@ theorem Version.public_eq_model (v : Ver) (h : WF v) :
     simp [WF, Ver.wf, e, locWF] at h
   unfold Gen.PySrc.Version.public
   have hv : viewOf "Version" v = v := by simp [viewOf, releaseOf]
-  simp only [Version.__str___eq_model "Version" v hloc, hv, ok_bind, str_split_max, ofString]
   have hs := V.public_is_split v h
   rw [← splitOnMax_head 43 v.str 0] at hs
-  have : ((1 : Int) < 0) = False := by simp
-  simp only [show (String.toList "+").map Char.toNat = [43] from rfl, this, if_false, pure_ok, ok_bind,
-    show (1 : Int).toNat = 1 from rfl]
-  cases hl : splitOnMax 43 (0 + 1) v.str with
-  | nil => rw [hl] at hs; simp at hs
-  | cons a as =>
-    rw [hl] at hs
-    simp only [List.head?_cons, Option.some.injEq] at hs
-    simp [hs]
+  -- `str(self).split("+", 1)[0]` and `str(self).partition("+")[0]` are the same piece
+  obtain ⟨pa, psep, pb, hpart, hhead⟩ := str_partition_head v.str 43
+  have hpa : pa = v.public := by
+    rw [hhead] at hs; exact Option.some.inj hs
+  have hsplit : splitOnMax 43 1 v.str = pa :: (splitOnMax 43 1 v.str).tail := by
+    cases hl : splitOnMax 43 1 v.str with
+    | nil => rw [hl] at hhead; simp at hhead
+    | cons a as => rw [hl] at hhead; simp at hhead; simp [hhead]
+  have h10 : ((1 : Int) < 0) = False := by simp
+  simp only [Version.__str___eq_model "Version" v hloc, hv, ok_bind, str_split_max, ofString,
+    show (String.toList "+").map Char.toNat = [43] from rfl, h10, if_false, pure_ok,
+    show (1 : Int).toNat = 1 from rfl, hpart, unpack3, iterate_tuple]
+  first
+  | (rw [hsplit]; simp [hpa]; done)
+  | (simp [hpa]; done)
 
 end Src
